@@ -4,7 +4,8 @@ Stage 1 (proof): Props/C19.v.
 Stage 2 (correspondence): repositories are built with the real library from hostile id
   sets under every layout of hist.LAYOUTS and without layout; after every commit/purge the
   on-disk tree is abstracted into a Model/Listing.v [tree] term and list_objects(None|glob),
-  list_staged_objects and get_object of the real library are compared, inside Coq
+  list_staged_objects, get_object and purge_object (result class, objects left, eviction of the
+  handle's id->path cache as seen by later lookups) of the real library are compared, inside Coq
   (Corr/CheckListing.v), with the model's answers - defects included.  A hand-written
   repository with unusual inventory spellings exercises the regex pre-filter.
 Stage 3 (direct search): model-free oracle on the same answers: listed ids == the driver's
@@ -23,7 +24,8 @@ from vplib import common, hist
 
 # --------------------------------------------------------------------------- ids
 
-# Rust's char::is_whitespace (White_Space): what create_object's trim() removes
+# Rust's char::is_whitespace (White_Space).  Since /repo 031a721 create_object stores the id exactly as
+# given (only an id that is blank after trimming is refused), so ` lead` and `lead` are different objects.
 RUST_WS = set("\t\n\x0b\x0c\r \x85\xa0\u1680\u2000\u2001\u2002\u2003\u2004\u2005\u2006\u2007\u2008\u2009\u200a"
               "\u2028\u2029\u202f\u205f\u3000")
 
@@ -231,10 +233,9 @@ def gen_case(rng, k, layout):
     raw_ids = []
     seen = set()
     for x in chosen:
-        t = rust_trim(x)
-        if t in seen:
+        if x in seen:
             continue
-        seen.add(t)
+        seen.add(x)
         raw_ids.append(to_layout_id(layout, x))
         if len(raw_ids) >= n:
             break
@@ -249,8 +250,8 @@ def gen_case(rng, k, layout):
     }
     cfg["obj_spec"] = cfg["repo_spec"] if rng.random() < 0.7 else "1.0"
     ops = []
-    state = {}                      # trimmed id -> 'committed' | 'staged' | 'purged'
-    roots = {}                      # no layout: trimmed id -> chosen object_root
+    state = {}                      # id -> 'committed' | 'staged' | 'purged'
+    roots = {}                      # no layout: id -> chosen object_root
     free_roots = []                 # no layout: roots of purged objects (to be reused)
 
     def pick_root(tid):
@@ -266,12 +267,14 @@ def gen_case(rng, k, layout):
             return "o" + h[:6]                                  # directly below the storage root
         if r < 0.8:
             return "deep/%s/%s/%s/%s" % (h[0], h[1], h[2], h[3:9])
-        if r < 0.9:
+        if r < 0.87:
             return "a/extensions/" + h[:6]                      # a directory NAMED extensions on the way
+        if r < 0.9:
+            return "x%s/extensions" % h[:5]                     # the object root itself is NAMED extensions
         return "Objs/" + h[:8].upper()
 
     for raw in raw_ids:
-        tid = rust_trim(raw)
+        tid = raw
         r = rng.random()
         if r < 0.70:
             ops.append({"op": "create", "raw": raw, "id": tid, "root": pick_root(tid), "pretty": rng.random() < 0.4})
@@ -313,13 +316,13 @@ def gen_case(rng, k, layout):
             ops.append({"op": rng.choice(["update", "stage_update"]), "id": tid, "pretty": rng.random() < 0.4})
     # probes: ids never committed
     probes = []
-    cand = [to_layout_id(layout, x) for x in usable if rust_trim(x) not in state]
+    cand = [to_layout_id(layout, x) for x in usable if to_layout_id(layout, x) not in state]
     probes += rng.sample(cand, k=min(len(cand), 3))
     for tid in list(state)[:4]:
         body = tid[2:] if layout in ("0006", "0007") else tid
         esc = json.dumps(body, ensure_ascii=False)[1:-1]
         cut = esc.split('"')[0]
-        for v in (cut, body.upper(), body + "x", body[:-1], " " + body):
+        for v in (cut, body.upper(), body + "x", body[:-1], " " + body, body + " ", rust_trim(body)):
             if v and v != body and id_ok_for(layout, v) and rust_trim(v):
                 probes.append(to_layout_id(layout, v))
     probes = [p for p in dict.fromkeys(probes) if p not in state][:8]
@@ -365,19 +368,41 @@ class CaseRun:
         self.staged = set()
         self.purged = set()
         self.checkpoints = []
-        self.cache_sim = {}        # no layout, one handle: id -> root a live get_object found it at
+        # What the driver knows of the handle's id->path cache (no layout; fs.rs:48-50).  A new handle
+        # has an empty cache.  An entry is written when a scan finds the id (get_object, but also the
+        # lookups inside new/cp/commit: after such a call the entry of THAT id is unknown unless already
+        # present) and is removed by purge (fs.rs:510-513).
+        self.cache_sim = {}        # id -> root the handle's cache holds for certain
+        self.cache_unknown = set() # ids whose entry may or may not exist
+        self.pending_purge = []    # purge calls since the last checkpoint (compared with Listing.purge_object)
         self.nfile = 0
         self.events = []
+
+    def cache_reset(self):
+        self.cache_sim = {}
+        self.cache_unknown = set()
+
+    def cache_touch(self, oid):
+        if oid not in self.cache_sim:
+            self.cache_unknown.add(oid)
+
+    def cache_view(self, oid):
+        """the cache restricted to oid, or None when unknown"""
+        if oid in self.cache_sim:
+            return {oid: self.cache_sim[oid]}
+        return None if oid in self.cache_unknown else {}
 
     def call(self, cmd, **kw):
         if self.cfg["fresh_handle"]:
             self.r.reopen()
-            self.cache_sim = {}
+            self.cache_reset()
         return self.r.s.call(cmd, h="A", **kw)
 
     def step(self, op):
         if self.cfg["fresh_handle"]:
-            self.cache_sim = {}
+            self.cache_reset()
+        elif op.get("id") is not None and op["op"] != "purge":
+            self.cache_touch(op["id"])
         return self.r.step(op)[1]
 
     def add_file(self, tid):
@@ -428,8 +453,22 @@ class CaseRun:
                 return True
             return False
         if o == "purge":
+            nolayout = self.cfg["layout"] == "none"
+            before = abstract_tree(self.r.root)
+            view = self.cache_view(tid) if nolayout and not self.cfg["fresh_handle"] else {}
             r = self.step({"op": "purge", "id": tid})
             ev["res"].append(hist.res_class(r))
+            if "panic" in r:
+                ev["panic"] = r
+            # purge_object either evicts the entry (fs.rs:510-513) or found none (scan: NotFound);
+            # an error of the staging store's purge (repo.rs:524-526) comes before the main store is asked
+            if ok(r) or hist.res_class(r) == "err:IllegalState":
+                self.cache_sim.pop(tid, None)
+                self.cache_unknown.discard(tid)
+            else:
+                self.cache_touch(tid)
+            self.pending_purge.append({"kind": "purge", "id": tid, "ok": ok(r), "raw": hist.res_class(r), "tree_before": before,
+                                       "cache": view, "coq": view is not None})
             if ok(r):
                 if tid in self.committed:
                     del self.committed[tid]
@@ -473,10 +512,13 @@ class CaseRun:
         one_handle = not cfg["fresh_handle"]
         cp = {"committed": sorted(self.committed), "staged": sorted(self.staged), "purged": sorted(self.purged),
               "queries": [], "final": final}
+        purges, self.pending_purge = self.pending_purge, []
         # the state the queries run on (nothing below mutates the repository)
         cp["tree"] = abstract_tree(self.r.root)
         cp["stree"] = abstract_tree(self.r.staging_root) if os.path.isdir(self.r.staging_root) else "(Dir [])"
         qs = cp["queries"]
+        if len(purges) == 1:
+            qs.append(purges[0])      # cp["tree"] is the repository right after that purge
         qs.append(self.list_q(False, None))
         for toks in case["globs"]:
             qs.append(self.list_q(False, toks))
@@ -486,20 +528,33 @@ class CaseRun:
         ids = list(dict.fromkeys(ids))[:14]
         for oid in ids:
             if nolayout and one_handle:
-                # the handle's cache is known only for ids a live get_object has found since the last reopen
-                known_cache = {oid: self.cache_sim[oid]} if oid in self.cache_sim else None
+                known_cache = self.cache_view(oid)
                 q = self.get_q(oid, known_cache)
                 q["coq"] = known_cache is not None
                 if q["obs"][0] == "found" and oid not in self.cache_sim:
+                    # either the entry existed (then it is the path just used) or the scan wrote it
                     self.cache_sim[oid] = q["obs"][1]
+                    self.cache_unknown.discard(oid)
             else:
                 q = self.get_q(oid, {})
                 q["coq"] = True
             qs.append(q)
+        if final:
+            # validate_repo walks the storage hierarchy with the same skip rule (validate/mod.rs:1941-1950):
+            # it must visit exactly the committed objects (direct oracle only, the validator is C06/C07's model)
+            r = self.call("validate_repo", fixity=False)
+            q = {"kind": "validate_repo", "raw": hist.res_class(r)}
+            if "ok" in r:
+                q["ids"] = [o["ok"].get("id") for o in r["ok"]["objects"] if "ok" in o]
+                q["paths"] = [o["ok"].get("path") for o in r["ok"]["objects"] if "ok" in o]
+                q["errors"] = len([o for o in r["ok"]["objects"] if "ok" not in o])
+            else:
+                q["ids"], q["paths"], q["errors"], q["failed"] = [], [], 0, r
+            qs.append(q)
         if nolayout and one_handle and final:
             # exact cache: reopen, then a sequence of lookups (with repeats) threaded through the model
             self.r.reopen()
-            self.cache_sim = {}
+            self.cache_reset()
             seq = ids + ids[:6]
             for oid in seq:
                 q = self.get_q(oid, self.cache_sim)
@@ -550,15 +605,22 @@ class Names:
 
 
 def checkpoint_term(case, cp):
-    """one Coq term per checkpoint: [ext; esc; ext_s; esc_s; names_unique t; q...] (a get contributes 3 bits)"""
+    """one Coq term per checkpoint: [esc; esc_s; names_unique t; q...] (a get contributes 2 bits)"""
     nm = Names()
     lmap = case.get("lmap")
     lay = "None" if case["cfg"]["layout"] == "none" else \
         "(Some [%s])" % "; ".join("(%s, %s)" % (nm.ref(i), cq_path(split_path(p))) for i, p in sorted(lmap.items()))
-    bits = ["c19_root_named_extensions t", "c19_id_needs_escape t", "c19_root_named_extensions s",
-            "c19_id_needs_escape s", "names_unique t"]
+    bits = ["c19_id_needs_escape t", "c19_id_needs_escape s", "names_unique t"]
+    t0 = ""
     for q in cp["queries"]:
-        if q["kind"] in ("list_objects", "list_staged"):
+        if q["kind"] == "validate_repo":
+            continue
+        if q["kind"] == "purge":
+            c = q["cache"] or {}
+            cache = "[%s]" % "; ".join("(%s, %s)" % (nm.ref(i), cq_path(p)) for i, p in c.items())
+            t0 = "let t0 := %s in " % q["tree_before"]
+            bits.append("check_purge lay %s t0 %s %s t" % (cache, nm.ref(q["id"]), "true" if q["ok"] else "false"))
+        elif q["kind"] in ("list_objects", "list_staged"):
             tr = "s" if q["kind"] == "list_staged" else "t"
             g = "None" if q["glob"] is None else "(Some %s)" % nm.ref(q["glob"])
             bits.append("check_list %s %s [%s] %d" % (
@@ -570,10 +632,9 @@ def checkpoint_term(case, cp):
             o = q["obs"]
             ot = "(OFound %s %s)" % (cq_path(o[1]), nm.ref(o[2])) if o[0] == "found" else obs_term(o)
             bits.append("check_get lay %s t %s %s" % (cache, ident, ot))
-            bits.append("c19_cache_stale %s t %s" % (cache, ident))
             bits.append("match lay with Some m => c19_layout_path_occupied t (amap m %s) | None => false end" % ident)
-    return "%slet t := %s in let s := %s in let lay := (%s : option (list (bytes * path))) in [%s]" % (
-        nm.lets(), cp["tree"], cp["stree"], lay, "; ".join(bits))
+    return "%slet t := %s in let s := %s in %slet lay := (%s : option (list (bytes * path))) in [%s]" % (
+        nm.lets(), cp["tree"], cp["stree"], t0, lay, "; ".join(bits))
 
 
 def needs_escape(i):
@@ -592,7 +653,24 @@ def direct_oracle(case, cp):
     committed, staged = cp["committed"], cp["staged"]
     for q in cp["queries"]:
         msg = None
-        if q["kind"] in ("list_objects", "list_staged"):
+        if q["kind"] == "purge":
+            # the effect of a purge is judged on the listings and lookups that follow it
+            if q["raw"] == "panic":
+                msg = "purge_object panicked"
+        elif q["kind"] == "validate_repo":
+            got = [i for i in q["ids"]]
+            q["want"], q["got"] = committed, got
+            if "failed" in q:
+                msg = "validate_repo failed: %r" % (q["failed"],)
+            elif q["errors"]:
+                msg = "validate_repo yielded %d error item(s)" % q["errors"]
+            elif multiset(got) != multiset(committed):
+                mg, mw = multiset(got), multiset(committed)
+                q["extra"] = [i for i in mg for _ in range(mg[i] - mw.get(i, 0))]
+                q["missing"] = [i for i in mw if mw[i] > mg.get(i, 0)]
+                msg = "objects visited by validate_repo differ from the reference record: missing %r, extra %r" % (
+                    q["missing"], q["extra"])
+        elif q["kind"] in ("list_objects", "list_staged"):
             truth = staged if q["kind"] == "list_staged" else committed
             toks = q["toks"]
             want = [i for i in truth if toks is None or glob_match_chars(toks, i)]
@@ -631,10 +709,10 @@ def judge_checkpoint(ctx, case, cp, bits, stats, known_ids):
     base = {"layout": layout, "fresh_handle": case["cfg"]["fresh_handle"], "ext_staging": case["cfg"]["ext_staging"],
             "case": case["k"], "committed": committed, "staged": staged, "purged": cp["purged"]}
     if bits is not None:
-        ext, esc, ext_s, esc_s, uniq = bits[:5]
+        esc, esc_s, uniq = bits[:3]
         if not uniq:
             common.corr_break(ctx, "abstracted tree has duplicate names (driver bug)", dict(base))
-    pos = 5
+    pos = 3
 
     def report(q, slugs, model_ok):
         msg = q["msg"]
@@ -644,7 +722,7 @@ def judge_checkpoint(ctx, case, cp, bits, stats, known_ids):
                                                  "committed": committed, "direct_oracle": msg or "holds", "model_agrees": model_ok})
         if not msg and model_ok:
             return
-        detail = dict(base, query={k: v for k, v in q.items() if k not in ("toks",)}, replay_case=case)
+        detail = dict(base, query={k: v for k, v in q.items() if k not in ("toks", "tree_before")}, replay_case=case)
         if msg:
             slug = next((x for x in slugs if x in known_ids), None)
             if slug:
@@ -659,7 +737,26 @@ def judge_checkpoint(ctx, case, cp, bits, stats, known_ids):
             common.corr_break(ctx, "Corr.CheckListing case (model Listing.v vs fs.rs)", detail)
 
     for q in cp["queries"]:
-        if q["kind"] in ("list_objects", "list_staged"):
+        if q["kind"] == "validate_repo":
+            stats["validate_repo"] += 1
+            slugs = []
+            extra, missing = q.get("extra", []), q.get("missing", [])
+            if q["msg"] and nolayout and (bits is None or esc) and extra and not missing \
+                    and all(i is not None and needs_escape(i) for i in extra):
+                slugs.append("id-needs-json-escape")     # purge could not locate the object, the re-creation duplicated the id
+            report(q, slugs, True)
+        elif q["kind"] == "purge":
+            stats["purge"] += 1
+            if bits is None:
+                report(q, [], True)
+                continue
+            model_ok = bits[pos]
+            pos += 1
+            if not q["coq"]:
+                model_ok = True          # cache entry of the live handle unknown for this id
+                stats["purge_uncompared"] += 1
+            report(q, [], model_ok)
+        elif q["kind"] in ("list_objects", "list_staged"):
             is_staged = q["kind"] == "list_staged"
             toks = q["toks"]
             stats["list_staged" if is_staged else ("list_glob" if toks is not None else "list_all")] += 1
@@ -671,7 +768,7 @@ def judge_checkpoint(ctx, case, cp, bits, stats, known_ids):
             truth = staged if is_staged else committed
             slugs = []
             if q["msg"]:
-                e1, e2 = (ext_s, esc_s) if is_staged else (ext, esc)
+                e2 = esc_s if is_staged else esc
                 extra, missing = q.get("extra", []), q.get("missing", [])
                 if nolayout and not is_staged and toks is None and e2 and extra and not missing \
                         and all(needs_escape(i) for i in extra):
@@ -685,8 +782,6 @@ def judge_checkpoint(ctx, case, cp, bits, stats, known_ids):
                         slugs.append("glob-qmark-one-byte")
                     if e2:
                         slugs.append("id-needs-json-escape")
-                if e1:
-                    slugs.append("root-named-extensions")
             report(q, slugs, model_ok)
         else:
             oid = q["id"]
@@ -694,23 +789,19 @@ def judge_checkpoint(ctx, case, cp, bits, stats, known_ids):
             if bits is None:
                 report(q, [], True)
                 continue
-            model_ok, stale, occupied = bits[pos], bits[pos + 1], bits[pos + 2]
-            pos += 3
+            model_ok, occupied = bits[pos], bits[pos + 1]
+            pos += 2
             if not q["coq"]:
                 model_ok = True          # cache of the live handle unknown for this id: direct oracle only
                 stats["get_live_uncompared"] += 1
             slugs = []
             if q["msg"]:
-                if stale:
-                    slugs.append("stale-id-path-cache")
                 if occupied:
                     slugs.append("layout-path-occupied")
                 if nolayout and esc:
+                    # includes the second lookup of the cut text through the same handle: the scan cached
+                    # the wrong match (fs.rs:217-221), the cached path then fails the id comparison
                     slugs.append("id-needs-json-escape")
-                if nolayout and ext:
-                    slugs.append("root-named-extensions")
-                if nolayout and not case["cfg"]["fresh_handle"] and not q["coq"] and (cp["purged"] or esc):
-                    slugs.append("stale-id-path-cache")      # live handle, cache content not observable
             report(q, slugs, model_ok)
 
 
@@ -800,7 +891,8 @@ def parse_bits(s):
 def execute(ctx, cases, vh, with_crafted=True):
     layout_paths(vh, cases)
     stats = {"queries": 0, "list_all": 0, "list_glob": 0, "list_staged": 0, "get_committed": 0, "get_absent": 0,
-             "get_live_uncompared": 0, "checkpoints": 0, "create_failed": 0, "cases": len(cases)}
+             "get_live_uncompared": 0, "purge": 0, "purge_uncompared": 0, "validate_repo": 0, "checkpoints": 0, "create_failed": 0,
+             "cases": len(cases)}
     import time
     t0 = time.time()
     with concurrent.futures.ThreadPoolExecutor(max_workers=max(4, common.NPROC)) as ex:
@@ -838,7 +930,7 @@ def execute(ctx, cases, vh, with_crafted=True):
                                                  "observed": ev["panic"], "expected": "no panic"})
     for (run, cp), r in zip(owners, res):
         bits = parse_bits(r)
-        n_expected = 5 + sum(1 if q["kind"] != "get" else 3 for q in cp["queries"])
+        n_expected = 3 + sum(0 if q["kind"] == "validate_repo" else 1 if q["kind"] != "get" else 2 for q in cp["queries"])
         if len(bits) != n_expected:
             raise common.BuildError("unexpected Coq output for a C19 checkpoint: %s" % r[:300])
         stats["checkpoints"] += 1
@@ -862,9 +954,11 @@ def execute(ctx, cases, vh, with_crafted=True):
 
 
 RULE = ("id-set cases: 3-8 ids drawn from a hostile pool (glob metacharacters, quotes/backslash/control characters, '/', "
-        "white space incl. trimmed ends, case twins, reserved names such as extensions, long, unicode) adapted to the layout; "
-        "every layout key of hist.LAYOUTS and none; create / stage-only / update / purge / re-create (roots reused and roots "
-        "below a directory named extensions when there is no layout); one handle or a fresh handle per call; after every "
+        "white space at the ends (ids are kept as given), case twins, reserved names such as extensions, long, unicode) adapted to the layout; "
+        "every layout key of hist.LAYOUTS and none; create / stage-only / update / purge / re-create (roots reused, roots "
+        "below a directory named extensions and roots named extensions when there is no layout); one handle or a fresh handle per call; "
+        "every purge is compared with the model's purge_object (result, objects left); at the end validate_repo must visit exactly "
+        "the committed objects; after every "
         "commit and purge: list_objects(None), 4 generated globs, list_staged, get_object of committed, staged-only, purged and "
         "never-committed ids; distinct = distinct (layout, handle mode, query, reference state)")
 
@@ -880,8 +974,9 @@ def run(ctx):
     ctx.assumptions.append("the glob matcher (globset) and the layout mapping (StorageLayout::map_object_id) are inputs of the model: "
                            "theorems quantify over them, the correspondence uses the real mapping and a Gallina matcher for the generated glob subset")
     ctx.assumptions.append("inventory parsing is modelled for inventories whose first member is the id (what rocfl writes); the rest of the inventory is not interpreted")
-    ctx.assumptions.append("one handle without layout: get_object is compared with the model only where the handle's cache content is known "
-                           "(ids found by an earlier get_object since the last reopen, and a final reopen + lookup sequence)")
+    ctx.assumptions.append("one handle without layout: get_object and purge_object are compared with the model only where the handle's cache "
+                           "entry for that id is known to the driver (empty after open, removed by purge, written by a get_object that found "
+                           "the id; unknown after new/cp/commit of that id until the next successful get_object); the direct oracle applies always")
     return common.finish_with_proof(ctx, proof, rule=RULE)
 
 
